@@ -329,6 +329,12 @@ func judgeC08(c *CliCase, obs *CliObs, o *Outcome) {
 	if last != nil && last.Kind == "session" && (last.State == "finished" || last.State == "failed") && obs.Err == "" && !obs.ClosedAtRet {
 		o.Fail("C08/not-closed-after-"+last.State, "the server answered %s but the client's connection was still open when EstablishSession returned", last.State)
 	}
+	// the same at whatever point of the handshake the terminal envelope came, also when EstablishSession then returns an error:
+	// a channel that has taken note of a finished / failed session (its state says so) must not keep the connection
+	// (a session that was established and ended later is left to the application to close: that is C13's subject)
+	if (obs.State == "finished" || obs.State == "failed") && obs.SesState != "established" && !obs.CliClosed {
+		o.Fail("C08/not-closed-after-"+obs.State+"/still-open-at-the-end", "the client channel is in state %s (EstablishSession: %q) but its connection was still open after the release bound; the server had not hung up (end=%s)", obs.State, obs.Err, c.End)
+	}
 }
 
 func regressionClass(p string) string {
